@@ -52,6 +52,20 @@ Section FV.
     destruct (Hw _ _ _ _ Hs I bb Hb) as [Hg|Hg]; [exact Hg|]. apply fvt_var in Hg. simpl in Hne. congruence.
   Qed.
 
+  (* the repaired placement of a continuation under binders (fix <commitcap>): < mu a. w(a) | cont > *)
+  Lemma occ_guard : forall binders (w : cterm -> M cstmt) lty (l : list cbinding),
+    (forall cont st s st', w cont st = Ok (s, st') -> cont_cns cont ->
+       forall bb, In bb (fvs s) -> In bb l \/ In bb (fvt cont)) ->
+    forall cont st s st', guard_capture false binders w lty cont st = Ok (s, st') -> cont_cns cont ->
+      forall bb, In bb (fvs s) -> In bb l \/ In bb (fvt cont).
+  Proof.
+    intros binders w lty l Hw cont st s st' H Hc bb Hb. apply guard_capture_inv in H.
+    destruct H as [[_ H]|[_ [ty0 [a [sta [s0 [_ [Ha [_ [H ->]]]]]]]]]]; [eapply Hw; eauto|].
+    apply fvs_cut in Hb. destruct Hb as [Hb|Hb]; [|right; exact Hb].
+    apply fvt_mu_iff in Hb. destruct Hb as [Hb Hne].
+    destruct (Hw _ _ _ _ H I bb Hb) as [Hg|Hg]; [left; exact Hg|]. apply fvt_var in Hg. simpl in Hne. congruence.
+  Qed.
+
   Lemma occ_args : forall args, Forall occc args ->
     forall st l st', subst_with (fun y => cmp' y) args st = Ok (l, st') ->
     forall bb, In bb (fva l) -> In bb (flat_map occ_arg args).
@@ -162,7 +176,8 @@ Section FV.
     - (* FLet *)
       destruct IHt1 as [W1 C1], IHt2 as [W2 _].
       assert (HW : occw (FLet v vty t1 t2 ty)).
-      { intros cont st s0 st' H0 Hc bb Hb. rewrite wc_unfold in H0. cbn [tocc]. rewrite in_app_iff.
+      { intros cont st s0 st' H0 Hc bb Hb. rewrite wc_unfold in H0. revert cont st s0 st' H0 Hc bb Hb. apply occ_guard.
+        intros cont st s0 st' H0 Hc bb Hb. cbn [tocc]. rewrite in_app_iff.
         assert (Hbody : forall body st1, wc' t2 cont st = Ok (body, st1) ->
                   forall bb, In bb (fvt (CMu CCns (new_id v) body (compile_ty vty))) ->
                   In bb (tocc t2) \/ In bb (fvt cont)).
@@ -224,7 +239,8 @@ Section FV.
       assert (HB : Forall (fun c => occw (clause_body c)) cls).
       { eapply Forall_impl; [|exact H]. intros a [Wa _]. exact Wa. }
       assert (HW : occw (FCase t targs cls ty)).
-      { intros cont st s0 st' H0 Hc bb Hb. rewrite wc_unfold in H0. apply wc_case_inv in H0.
+      { intros cont st s0 st' H0 Hc bb Hb. rewrite wc_unfold in H0. revert cont st s0 st' H0 Hc bb Hb. apply occ_guard.
+        intros cont st s0 st' H0 Hc bb Hb. apply wc_case_inv in H0.
         destruct H0 as [cont1 [st0 [cls' [st1 [sty0 [Hsh [Hcls [Esty Hscrut]]]]]]]].
         assert (Hc1 : cont_cns cont1 /\ forall bb, In bb (fvt cont1) -> In bb (fvt cont)).
         { destruct (Nat.leb (List.length cls) 1 || cont_is_small cont);
